@@ -145,6 +145,10 @@ def build_harness(cfg, name, repo, extra_defs=()):
     if os.path.exists(os.path.join(hdir, name + ".S")):
         srcs.append(os.path.join(hdir, name + ".S"))
     esrcs = [os.path.join(edir, f) for f in sorted(os.listdir(edir)) if f.endswith(".c")]
+    extra_ld = []
+    ldf = os.path.join(hdir, name + ".ldflags")
+    if os.path.exists(ldf):
+        extra_ld = open(ldf).read().split()
     deps = srcs + esrcs + [os.path.join(edir, f) for f in os.listdir(edir) if f.endswith(".h")] \
         + [os.path.join(hdir, f) for f in os.listdir(hdir) if f.endswith((".h", ".inc"))]
     h = hashlib.sha256()
@@ -152,6 +156,7 @@ def build_harness(cfg, name, repo, extra_defs=()):
         h.update(p.encode())
         h.update(open(p, "rb").read())
     h.update(repr(extra_defs).encode())
+    h.update(repr(extra_ld).encode())
     tag = h.hexdigest()[:12]
     exe = os.path.join(out, "%s.%s" % (name, tag))
     lock = open(os.path.join(BUILD, cfg, ".lock"), "w")
@@ -166,7 +171,7 @@ def build_harness(cfg, name, repo, extra_defs=()):
                  "-ftls-model=initial-exec", "-Wall", "-Wno-unused-function",
                  "-Wno-unused-variable", "-Wno-unused-but-set-variable"]
         run([c["cc"]] + flags + c["cflags"] + list(extra_defs) + incs + srcs + esrcs +
-            [os.path.join(out, "libcimba.a"), "-lm", "-lpthread"] + c["ldflags"] +
+            [os.path.join(out, "libcimba.a"), "-lm", "-lpthread"] + c["ldflags"] + extra_ld +
             ["-o", exe + ".tmp"])
         os.rename(exe + ".tmp", exe)
         return exe
